@@ -3,23 +3,24 @@
 # GOMAXPROCS 1, 4 and 16, must produce identical state sets, case sets, probe and fault counts.
 # usage: selftest.sh [props...]   (uses an already built test binary: builds one if needed)
 set -u
+VERIF="$(cd "$(dirname "${BASH_SOURCE[0]}")" && pwd)"
 export GOFLAGS=-mod=mod GOPROXY=off GOSUMDB=off GOTOOLCHAIN=local CGO_ENABLED=1 PATH=/opt/veriftools/go1.26.8/bin:$PATH
 PROPS="${@:-C01 C02 C03 C05 C09 C10 C18 C19}"
 SCR=/var/tmp/verif-selftest-$$
 trap 'rm -rf "$SCR"' EXIT
 mkdir -p "$SCR"
 rsync -a --exclude .git /repo/ "$SCR/repo/"
-[ -x /verif/bin/pegsim-instrument ] || ( cd /verif/instrument && go build -o /verif/bin/pegsim-instrument . )
-SIMRT_DIR=/verif/pegsim/simrt /verif/bin/pegsim-instrument "$SCR/repo" > "$SCR/instrument.json" || exit 2
-sed "s#=> /var/tmp/pegsim-scratch/repo#=> $SCR/repo#; s#=> ./simrt#=> /verif/pegsim/simrt#" /verif/pegsim/go.mod > "$SCR/go.mod"; cp /verif/pegsim/go.sum "$SCR/go.sum"
-( cd /verif/pegsim && go test -c -tags verif -modfile="$SCR/go.mod" -o "$SCR/pegsim.test" ./h ) > "$SCR/build.log" 2>&1 || { tail "$SCR/build.log"; exit 2; }
+[ -x $VERIF/bin/pegsim-instrument ] || ( cd $VERIF/instrument && go build -o $VERIF/bin/pegsim-instrument . )
+SIMRT_DIR=$VERIF/pegsim/simrt $VERIF/bin/pegsim-instrument "$SCR/repo" > "$SCR/instrument.json" || exit 2
+sed "s#=> /var/tmp/pegsim-scratch/repo#=> $SCR/repo#; s#=> ./simrt#=> $VERIF/pegsim/simrt#" $VERIF/pegsim/go.mod > "$SCR/go.mod"; cp $VERIF/pegsim/go.sum "$SCR/go.sum"
+( cd $VERIF/pegsim && go test -c -tags verif -modfile="$SCR/go.mod" -o "$SCR/pegsim.test" ./h ) > "$SCR/build.log" 2>&1 || { tail "$SCR/build.log"; exit 2; }
 FAIL=0
 for P in $PROPS; do
   for SEED in 11 22; do
     i=0
     for GMP in 1 4 16 1 4 16 1 4 16 16; do
       i=$((i+1))
-      ( cd "$SCR" && GOMAXPROCS=$GMP PEGSIM_KNOWN=/verif/known_findings.json PEGSIM_ONESEED=$((SEED*1000+7)) PEGSIM_PROP=$P PEGSIM_TIER=quick PEGSIM_SEED=1 PEGSIM_BUDGET_S=200 \
+      ( cd "$SCR" && GOMAXPROCS=$GMP PEGSIM_KNOWN=$VERIF/known_findings.json PEGSIM_ONESEED=$((SEED*1000+7)) PEGSIM_PROP=$P PEGSIM_TIER=quick PEGSIM_SEED=1 PEGSIM_BUDGET_S=200 \
           PEGSIM_OUT="$SCR/st-$P-$SEED-$i.json" PEGSIM_REPLAYDIR="$SCR/replays" ./pegsim.test -test.run '^TestWorker$' -test.timeout 0 > /dev/null 2>&1 ) &
     done
     wait
